@@ -94,9 +94,13 @@ def main():
             dst = os.path.join(HERE, 'seeded', sid)
             os.makedirs(dst, exist_ok=True)
             for f in ('patch.diff', 'demo.cpp', 'notes.md'):
-                if os.path.exists(os.path.join(d, f)):
+                if os.path.exists(os.path.join(d, f)) and os.path.abspath(os.path.join(d, f)) != os.path.abspath(os.path.join(dst, f)):
                     shutil.copy(os.path.join(d, f), os.path.join(dst, f))
-            meta = {'seed': sid, 'breaks_property': pid, 'confirmed': {'suite_passes_with_change': res['suite_passes'], 'demo_passes_without_change': True, 'demo_fails_with_change': fails, 'suite_line': res['suite']},
+            old_meta = {}
+            if os.path.exists(os.path.join(dst, 'meta.json')):
+                try: old_meta = json.load(open(os.path.join(dst, 'meta.json')))
+                except Exception: old_meta = {}
+            meta = {'seed': sid, 'breaks_property': pid, 'needs_to_manifest': old_meta.get('needs_to_manifest', ''), 'confirmed': {'suite_passes_with_change': res['suite_passes'], 'demo_passes_without_change': True, 'demo_fails_with_change': fails, 'suite_line': res['suite']},
                     'what_was_run': ['g++ -std=c++17 -O1 -g -pthread demo.cpp on a scratch copy of /repo (clean): exit 0', 'patch -p1 < patch.diff; baseline_off.sh (299 tests) on the changed copy', 'demo on the changed copy: fails', './check %s --tier %s with VERIF_REPO=<changed copy>' % (' / '.join([pid] + also), tier)],
                     'checks': res['checks']}
             json.dump(meta, open(os.path.join(dst, 'meta.json'), 'w'), indent=1)
